@@ -48,4 +48,30 @@ def SeedSeq.spawn (s : SeedSeq) (k : Nat) : List SeedSeq × SeedSeq :=
       { entropy := s.entropy, spawnKey := s.spawnKey ++ [s.nSpawned + i], nSpawned := 0 }),
    { s with nSpawned := s.nSpawned + k })
 
+/-! ### the generator loops (`__call__(nsamples)`) -/
+
+/-- `TrajGenConst.__call__`: `seedseqs = self.seed_sequence.spawn(nsamples)`, then one tuple
+    `(position, momentum, initial_state, seedseqs[i])` per `i` -/
+def constGen {β : Type} (ic : β) (s : SeedSeq) (k : Nat) : List (β × SeedSeq) × SeedSeq :=
+  ((s.spawn k).1.map (fun c => (ic, c)), (s.spawn k).2)
+
+/-- `TrajGenNormal.__call__`: draw `i` (a pair of standard-normal vectors, taken from the generator's own stream in
+    order) is turned into a sample; a sample with a negative momentum component is skipped — `continue` — and its
+    seed slot `seedseqs[i]` is then simply not used -/
+def normalGen [Add α] [Mul α] [Div α] [Zero α] [One α] [NatCast α] [LT α] [DecidableLT α]
+    (pos mom sigma : Fin n → α) (draws : List ((Fin n → α) × (Fin n → α))) (s : SeedSeq) (k : Nat) :
+    List (((Fin n → α) × (Fin n → α)) × SeedSeq) × SeedSeq :=
+  (((draws.take k).zip (s.spawn k).1).filterMap (fun dc =>
+      let xk := normalSample pos mom sigma dc.1.1 dc.1.2
+      if kskip xk.2 then none else some (xk, dc.2)),
+   (s.spawn k).2)
+
+/-- `TrajGenBoltzmann.__call__`: every draw yields -/
+def boltzmannGen [Add α] [Mul α] [Div α] [Zero α] [One α] [NatCast α] [HasSqrt α]
+    (x m : Fin n → α) (kt : α) (scale : Bool) (draws : List (Fin n → α)) (s : SeedSeq) (k : Nat) :
+    List (((Fin n → α) × (Fin n → α)) × SeedSeq) × SeedSeq :=
+  (((draws.take k).zip (s.spawn k).1).map (fun dc =>
+      ((x, if scale then boltzmannScaled m dc.1 kt else boltzmannRaw m dc.1 kt), dc.2)),
+   (s.spawn k).2)
+
 end Mud
